@@ -4,5 +4,6 @@
 //! harness can run them on generated inputs. Nothing here is used by the
 //! crate itself; with the cfg flag off this module does not exist.
 
+pub mod compaction;
 pub mod engine;
 pub mod wal;
